@@ -268,6 +268,11 @@ func shorten(s string, n int) string {
 
 // RunHistory is the rapid property body for a chain-engine profile.
 func RunHistory(t *rapid.T, p *Profile) {
+	if blockHung.Load() {
+		// a block of an earlier case never returned; its goroutine still runs. The trace of THAT case was written
+		// when it happened; nothing executed now could be trusted (or shrunk), so every further case just repeats it
+		t.Fatalf("VIOLATION %s: block-processing-failed — FinalizeBlock of an earlier case of this process never returned (see the first report; its trace is the reproduction)", p.ID)
+	}
 	h, viol := runHistoryCore(t, p)
 	h.emitStats(len(viol) > 0)
 	if len(viol) > 0 {
